@@ -249,6 +249,11 @@ fn generic_candidates(v: &Violation) -> Vec<Violation> {
         }
     }
     // simpler simulation knobs
+    if v.scenario.table_dims.is_some() {
+        let mut c = v.clone();
+        c.scenario.table_dims = None;
+        out.push(c);
+    }
     if v.scenario.sim.noisy {
         let mut c = v.clone();
         c.scenario.sim.noisy = false;
@@ -283,7 +288,7 @@ fn generic_candidates(v: &Violation) -> Vec<Violation> {
 
 fn weight(v: &Violation) -> usize {
     let sql: usize = v.scenario.sessions.iter().flatten().map(|s| s.sql.len()).sum();
-    sql * 4 + v.choices.iter().filter(|c| **c != 0).count() + v.choices.len() + if v.scenario.sim.noisy { 50 } else { 0 }
+    sql * 4 + v.choices.iter().filter(|c| **c != 0).count() + v.choices.len() + if v.scenario.sim.noisy { 50 } else { 0 } + if v.scenario.table_dims.is_some() { 20 } else { 0 }
 }
 
 pub fn minimise(check: &dyn Check, mut v: Violation, budget: usize) -> Violation {
